@@ -244,3 +244,323 @@ Proof.
   exists [pt_x; pt_y], pt_witness, (propagate_with pt_sigma pt_witness), pt_interp.
   destruct proptop_refuted_witness as (H1 & H2). split; [exact pt_interp_wf|]. repeat split; auto.
 Qed.
+
+(* ================================================================ the conflict path: two different constants in one class *)
+Open Scope Z_scope.
+(* a constant as the manager builds it: no arguments; a Real constant in lowest terms *)
+Definition const_ok (t : term) : bool :=
+  match t with
+  | T (OBoolC _) [] | T (OIntC _) [] | T (OStrC _) [] | T (OBVC _ _) [] => true
+  | T (ORealC n d) [] => (0 <? d) && (Z.gcd n d =? 1)
+  | _ => false
+  end.
+Definition kc (t : term) : bool := if is_const t then const_ok t else true.
+(* every top-level definition  l = r  of the formula has well-formed constants *)
+Definition defs_const_ok (t : term) : bool :=
+  forallb (fun c => match is_def c with Some (l, r) => kc l && kc r | None => true end) (conjunctive_partition t).
+
+Lemma frac_norm_inj n d n' d' : 0 < d -> 0 < d' -> Z.gcd n d = 1 -> Z.gcd n' d' = 1 -> n * d' = n' * d -> n = n' /\ d = d'.
+Proof.
+  intros Hd Hd' G G' E.
+  assert (D1 : (d | d')).
+  { apply (Z.gauss d n d'); [|rewrite Z.gcd_comm; exact G]. exists n'. rewrite E. ring. }
+  assert (D2 : (d' | d)).
+  { apply (Z.gauss d' n' d); [|rewrite Z.gcd_comm; exact G']. exists n. rewrite <- E. ring. }
+  assert (Ed : d = d') by (apply Z.divide_antisym_nonneg; auto; lia). subst d'.
+  split; auto. apply (Z.mul_reg_r _ _ d); [lia | exact E].
+Qed.
+
+Lemma const_distinct I k v : is_const k = true -> is_const v = true -> const_ok k = true -> const_ok v = true ->
+  term_eqb k v = false -> eval I k <> eval I v.
+Proof.
+  intros Ck Cv Ok Ov Ne E. assert (N : k <> v) by (intros ->; rewrite (proj2 (term_eqb_eq v v) eq_refl) in Ne; discriminate).
+  apply N. clear Ne N.
+  destruct k as [ok ak], v as [ov av].
+  destruct ok; try discriminate; destruct ak; try discriminate;
+    destruct ov; try discriminate; destruct av; try discriminate; cbn in E; try discriminate; try (injection E as <-; reflexivity);
+      try (injection E; intros; subst; reflexivity).
+  (* two Real constants *)
+  cbn in Ok, Ov. apply andb_true_iff in Ok, Ov. destruct Ok as [D1 G1], Ov as [D2 G2].
+  apply Z.ltb_lt in D1, D2. apply Z.eqb_eq in G1, G2.
+  injection E as E. unfold Q2R' in E.
+  assert (E' : (IZR num * IZR den0 = IZR num0 * IZR den)%R).
+  { assert (H1 : (IZR den <> 0)%R) by (apply not_0_IZR; lia). assert (H2 : (IZR den0 <> 0)%R) by (apply not_0_IZR; lia).
+    apply (Rmult_eq_reg_r (/ IZR den * / IZR den0)); [|apply Rmult_integral_contrapositive_currified; apply Rinv_neq_0_compat; auto].
+    unfold Rdiv in E. field_simplify_eq; auto. field_simplify_eq in E; auto. }
+  rewrite <- !mult_IZR in E'. apply eq_IZR in E'.
+  destruct (frac_norm_inj _ _ _ _ D1 D2 G1 G2 E') as [-> ->]. reflexivity.
+Qed.
+Close Scope Z_scope.
+
+Definition kc_inv (m : lmap) : Prop := forall k l, In (k, l) m -> kc k = true /\ kc l = true.
+
+Lemma ds_add_kc order m a b m' : kc_inv m -> kc a = true -> kc b = true -> ds_add order m a b = Some m' -> kc_inv m'.
+Proof.
+  intros Inv Ka Kb. unfold ds_add.
+  destruct (lfind m a) as [la|] eqn:Ea; destruct (lfind m b) as [lb|] eqn:Eb.
+  - apply lfind_In in Ea, Eb. destruct (Inv _ _ Ea) as [_ Kla]. destruct (Inv _ _ Eb) as [_ Klb].
+    destruct (term_eqb la lb); [intros H; injection H as <-; exact Inv|].
+    destruct (cmp_gt order la lb) as [sw|]; [|discriminate]. intros H. injection H as <-.
+    intros k l Hin. apply in_map_iff in Hin. destruct Hin as ([x lx] & E & Hin). cbn [fst snd] in E.
+    destruct (Inv _ _ Hin) as [Kx Klx]. destruct (term_eqb lx (if sw then la else lb)); injection E as <- <-; auto.
+    destruct sw; auto.
+  - apply lfind_In in Ea. destruct (Inv _ _ Ea) as [_ Kla]. intros H. injection H as <-.
+    intros k l Hin. apply lset_In in Hin. destruct Hin as [Hin|Hin]; [auto|]. injection Hin as -> ->. auto.
+  - apply lfind_In in Eb. destruct (Inv _ _ Eb) as [_ Klb]. intros H. injection H as <-.
+    intros k l Hin. apply lset_In in Hin. destruct Hin as [Hin|Hin]; [auto|]. injection Hin as -> ->. auto.
+  - destruct (cmp_gt order a b) as [sw|]; [|discriminate]. intros H. injection H as <-.
+    intros k l Hin. apply lset_In in Hin. destruct Hin as [Hin|Hin].
+    + apply lset_In in Hin. destruct Hin as [Hin|Hin]; [auto|]. injection Hin as -> ->. destruct sw; auto.
+    + injection Hin as -> ->. destruct sw; auto.
+Qed.
+
+Lemma scan_kc order : forall cs rel m rel' m',
+  forallb (fun c => match is_def c with Some (l, r) => kc l && kc r | None => true end) cs = true ->
+  kc_inv m -> scan order cs rel m = Some (rel', m') -> kc_inv m'.
+Proof.
+  induction cs as [|c cs IH]; intros rel m rel' m' Hc Inv E; cbn in E; [injection E as <- <-; exact Inv|].
+  cbn in Hc. apply andb_true_iff in Hc. destruct Hc as [Hc1 Hc].
+  destruct (is_def c) as [[l r]|] eqn:Ed; [|eapply IH; [exact Hc | exact Inv | exact E]].
+  destruct (ds_add order m l r) as [m1|] eqn:Ea; [|discriminate].
+  apply andb_true_iff in Hc1. destruct Hc1 as [Kl Kr].
+  eapply IH; [exact Hc | | exact E]. apply (ds_add_kc order m l r m1); auto.
+Qed.
+
+Lemma build_sigma_conflict m : forall rel acc, build_sigma rel m acc = SConflict ->
+  exists k v, In (k, v) m /\ term_eqb k v = false /\ is_const k = true /\ is_const v = true.
+Proof.
+  induction rel as [|x rel IH]; intros acc E; cbn in E; [discriminate|].
+  destruct (lfind m x) as [v|] eqn:Ef; [|eapply IH; eauto].
+  destruct (term_eqb x v) eqn:Et; [eapply IH; eauto|].
+  destruct (is_const x && is_const v) eqn:Ec; [|eapply IH; eauto].
+  apply andb_true_iff in Ec. exists x, v. split; [now apply lfind_In | tauto].
+Qed.
+
+(* C10, propagate_toplevel, quantifier-free inputs, both paths *)
+Theorem proptop_equiv_qf : forall order t r I,
+  is_qf t = true -> normal t = true -> boolish t = true -> defs_const_ok t = true -> wf_interp I ->
+  propagate_toplevel order t = Some r -> eval I r = eval I t.
+Proof.
+  intros order t r I Hq Hn Hb Hc HI E. unfold propagate_toplevel in E.
+  destruct (scan order (conjunctive_partition t) [] []) as [[rel m]|] eqn:Es; [|discriminate].
+  destruct (build_sigma rel m []) as [|sigma] eqn:Eb; injection E as <-; [|eapply proptop_equiv_partial; eauto].
+  (* conflict: the formula is false *)
+  assert (Inv : uf_inv t m) by (eapply (scan_inv order t); [apply incl_refl | | exact Es]; intros k l []).
+  assert (Kinv : kc_inv m) by (eapply (scan_kc order); [exact Hc | | exact Es]; intros k l []).
+  destruct (build_sigma_conflict m rel [] Eb) as (k & v & Hin & Ne & Ck & Cv).
+  destruct (Inv _ _ Hin) as [Hent _]. destruct (Kinv _ _ Hin) as [Kk Kv]. unfold kc in Kk, Kv. rewrite Ck in Kk. rewrite Cv in Kv.
+  rewrite (is_vbool_eq (eval I t)) by (now apply boolish_is_vbool). cbn. f_equal.
+  destruct (vbool (eval I t)) eqn:Et; auto. exfalso.
+  assert (Ht : holds I t) by (apply holds_tv; exact Et).
+  exact (const_distinct I k v Ck Cv Kk Kv Ne (Hent I Ht)).
+Qed.
+
+(* ================================================================ quantified inputs: when the substitution is sound *)
+From PySMT.proofs Require Import PrenexSem_proofs.
+
+Fixpoint bvars (t : term) : list var :=
+  match t with
+  | T o args => (match o with OForall vs | OExists vs => vs | _ => [] end) ++ flat_map bvars args
+  end.
+(* no variable bound anywhere in t occurs in x *)
+Definition free_of_binders (t x : term) : Prop := forall y, In y (bvars t) -> ~ In y (fv x).
+Definition unbound (s : list (term * term)) (t : term) : Prop :=
+  forall k v, In (k, v) s -> free_of_binders t k /\ free_of_binders t v.
+
+Lemma bvars_arg o args a y : In a args -> In y (bvars a) -> In y (bvars (T o args)).
+Proof. intros Ha Hy. cbn [bvars]. apply in_or_app. right. apply in_flat_map. eauto. Qed.
+Lemma unbound_arg s o args a : In a args -> unbound s (T o args) -> unbound s a.
+Proof. intros Ha H k v Hin. destruct (H k v Hin) as [H1 H2]. split; intros y Hy; [apply H1 | apply H2]; eapply bvars_arg; eauto. Qed.
+
+Lemma eval_bind_free I vs xs x : (forall y, In y vs -> ~ In y (fv x)) -> eval (bind I vs xs) x = eval I x.
+Proof.
+  intros D. apply coincidence_gen. destruct (bind_other vs xs I) as (A & B & C). repeat split; auto.
+  - intros n t Hin. apply bind_isym_notin. intros H. exact (D _ H Hin).
+  - intros n t _. now rewrite A.
+Qed.
+
+Lemma filter_all {A} (f : A -> bool) l : (forall x, In x l -> f x = true) -> filter f l = l.
+Proof. induction l as [|a l IH]; intros H; cbn; auto. rewrite (H a) by now left. f_equal. apply IH. intros; apply H; now right. Qed.
+
+Lemma tfilter_id s vs : (forall k v, In (k, v) s -> forall y, In y vs -> ~ In y (fv k)) -> tfilter s vs = s.
+Proof.
+  intros H. unfold tfilter. apply filter_all. intros [k v] Hin. cbn [fst]. apply forallb_forall. intros y Hy.
+  destruct (mem var_eqb y vs) eqn:M; auto. apply (mem_In var_eqb var_eqb_eq) in M. exfalso. exact (H k v Hin y M Hy).
+Qed.
+
+Lemma tsubst_top_not_q s o args : (forall k v, In (k, v) s -> top_not v = false) ->
+  node_normal o args = true -> o <> ONot -> top_not (tsubst s (T o args)) = false.
+Proof.
+  intros Hs Hn Ho. destruct (is_quant_op o) eqn:Hq; [|now apply tsubst_top_not].
+  assert (G : top_not (match tlookup s (T o args) with Some v => v | None => rebuild o (map (tsubst s) args) end) = false).
+  { destruct (tlookup s (T o args)) as [v|] eqn:E; [apply tlookup_In in E; eapply Hs; eauto|].
+    destruct o; try discriminate; destruct (map (tsubst s) args) as [|x [|y l]]; cbn; auto; destruct vs; try discriminate; reflexivity. }
+  destruct o; try discriminate; destruct args as [|b [|c l]]; try exact G; cbn [tsubst]; destruct vs; try discriminate; reflexivity.
+Qed.
+
+Theorem tsubst_eval_unbound : forall t I s,
+  (forall k v, In (k, v) s -> eval I k = eval I v) -> (forall k v, In (k, v) s -> top_not v = false) ->
+  unbound s t -> normal t = true -> eval I (tsubst s t) = eval I t.
+Proof.
+  induction t as [o args IH] using term_ind'. intros I s He Hs Hub Hn.
+  cbn [normal] in Hn. apply andb_true_iff in Hn. destruct Hn as [Hnn Hna].
+  assert (IHa : forall a, In a args -> forall J s', (forall k v, In (k, v) s' -> eval J k = eval J v) ->
+                  (forall k v, In (k, v) s' -> top_not v = false) -> unbound s' a -> eval J (tsubst s' a) = eval J a).
+  { rewrite Forall_forall in IH. rewrite forallb_forall in Hna. intros a Ha J s' H1 H2 H3. apply IH; auto. }
+  assert (Generic : eval I (match tlookup s (T o args) with Some v => v | None => rebuild o (map (tsubst s) args) end) = eval I (T o args) \/
+                    (is_quant_op o = true /\ exists b, args = [b])).
+  { destruct (tlookup s (T o args)) as [v|] eqn:E; [left; apply tlookup_In in E; symmetry; now apply He|].
+    assert (Hmap : map (eval I) (map (tsubst s) args) = map (eval I) args).
+    { rewrite map_map. apply map_ext_Forall. apply Forall_forall. intros a Ha. apply IHa; auto. eapply unbound_arg; eauto. }
+    destruct (is_quant_op o) eqn:Hq.
+    - destruct args as [|b [|c l]]; [left | right; eauto | left]; destruct o; try discriminate; reflexivity.
+    - left. destruct (op_eqb o ONot) eqn:Hnot.
+      + apply op_eqb_eq in Hnot. subst o. destruct (node_normal_not _ Hnn) as (a & -> & Hta). cbn [map rebuild].
+        rewrite eval_mk_not_gen.
+        * cbn [map] in Hmap. injection Hmap as Hm. unfold tv. rewrite Hm. reflexivity.
+        * intros y Hy. exfalso. destruct a as [oa aa]. cbn [forallb] in Hna. rewrite andb_true_r in Hna.
+          cbn [normal] in Hna. apply andb_true_iff in Hna. destruct Hna as [Hna1 _].
+          assert (Hoa : oa <> ONot) by (intros ->; cbn in Hta; discriminate).
+          pose proof (tsubst_top_not_q s oa aa Hs Hna1 Hoa) as Ht. rewrite Hy in Ht. discriminate.
+      + assert (Ho : o <> ONot) by (intros ->; cbn in Hnot; discriminate).
+        rewrite (rebuild_same_len o args) by (auto; apply map_length). now apply eval_congr. }
+  destruct Generic as [G|(Hq & b & ->)].
+  - destruct (is_quant_op o) eqn:Hq; [|rewrite tsubst_nonquant by auto; exact G].
+    destruct o; try discriminate; destruct args as [|b [|c l]]; try exact G.
+    + (* impossible: handled by the right disjunct; still provable directly *)
+      cbn [tsubst]. destruct vs as [|v0 vs0]; [discriminate|].
+      assert (Ef : tfilter s (v0 :: vs0) = s) by (apply tfilter_id; intros k v Hin y Hy; apply (proj1 (Hub k v Hin)); cbn [bvars]; apply in_or_app; now left).
+      rewrite Ef. cbn [mk_forall]. cbn [eval]. f_equal. apply emi_iff.
+      assert (Eb : forall xs, eval (bind I (v0 :: vs0) xs) (tsubst s b) = eval (bind I (v0 :: vs0) xs) b).
+      { intros xs. apply (IHa b (or_introl eq_refl)); auto; [|eapply unbound_arg; eauto; now left].
+        intros k v Hin. destruct (Hub k v Hin) as [U1 U2].
+        rewrite !eval_bind_free; auto; intros y Hy; [apply U2 | apply U1]; cbn [bvars]; apply in_or_app; now left. }
+      split; intros H xs Hok; [rewrite <- Eb | rewrite Eb]; auto.
+    + cbn [tsubst]. destruct vs as [|v0 vs0]; [discriminate|].
+      assert (Ef : tfilter s (v0 :: vs0) = s) by (apply tfilter_id; intros k v Hin y Hy; apply (proj1 (Hub k v Hin)); cbn [bvars]; apply in_or_app; now left).
+      rewrite Ef. cbn [mk_exists]. cbn [eval]. f_equal. apply emi_iff.
+      assert (Eb : forall xs, eval (bind I (v0 :: vs0) xs) (tsubst s b) = eval (bind I (v0 :: vs0) xs) b).
+      { intros xs. apply (IHa b (or_introl eq_refl)); auto; [|eapply unbound_arg; eauto; now left].
+        intros k v Hin. destruct (Hub k v Hin) as [U1 U2].
+        rewrite !eval_bind_free; auto; intros y Hy; [apply U2 | apply U1]; cbn [bvars]; apply in_or_app; now left. }
+      split; intros (xs & Hok & H); exists xs; split; auto; [rewrite <- Eb | rewrite Eb]; auto.
+  - destruct o; try discriminate.
+    + cbn [tsubst]. destruct vs as [|v0 vs0]; [discriminate|].
+      assert (Ef : tfilter s (v0 :: vs0) = s) by (apply tfilter_id; intros k v Hin y Hy; apply (proj1 (Hub k v Hin)); cbn [bvars]; apply in_or_app; now left).
+      rewrite Ef. cbn [mk_forall]. cbn [eval]. f_equal. apply emi_iff.
+      assert (Eb : forall xs, eval (bind I (v0 :: vs0) xs) (tsubst s b) = eval (bind I (v0 :: vs0) xs) b).
+      { intros xs. apply (IHa b (or_introl eq_refl)); auto; [|eapply unbound_arg; eauto; now left].
+        intros k v Hin. destruct (Hub k v Hin) as [U1 U2].
+        rewrite !eval_bind_free; auto; intros y Hy; [apply U2 | apply U1]; cbn [bvars]; apply in_or_app; now left. }
+      split; intros H xs Hok; [rewrite <- Eb | rewrite Eb]; auto.
+    + cbn [tsubst]. destruct vs as [|v0 vs0]; [discriminate|].
+      assert (Ef : tfilter s (v0 :: vs0) = s) by (apply tfilter_id; intros k v Hin y Hy; apply (proj1 (Hub k v Hin)); cbn [bvars]; apply in_or_app; now left).
+      rewrite Ef. cbn [mk_exists]. cbn [eval]. f_equal. apply emi_iff.
+      assert (Eb : forall xs, eval (bind I (v0 :: vs0) xs) (tsubst s b) = eval (bind I (v0 :: vs0) xs) b).
+      { intros xs. apply (IHa b (or_introl eq_refl)); auto; [|eapply unbound_arg; eauto; now left].
+        intros k v Hin. destruct (Hub k v Hin) as [U1 U2].
+        rewrite !eval_bind_free; auto; intros y Hy; [apply U2 | apply U1]; cbn [bvars]; apply in_or_app; now left. }
+      split; intros (xs & Hok & H); exists xs; split; auto; [rewrite <- Eb | rewrite Eb]; auto.
+Qed.
+
+Definition pinv (P : term -> Prop) (m : lmap) : Prop := forall k l, In (k, l) m -> P k /\ P l.
+
+Lemma ds_add_pinv P order m a b m' : pinv P m -> P a -> P b -> ds_add order m a b = Some m' -> pinv P m'.
+Proof.
+  intros Inv Ka Kb. unfold ds_add.
+  destruct (lfind m a) as [la|] eqn:Ea; destruct (lfind m b) as [lb|] eqn:Eb.
+  - apply lfind_In in Ea, Eb. destruct (Inv _ _ Ea) as [_ Kla]. destruct (Inv _ _ Eb) as [_ Klb].
+    destruct (term_eqb la lb); [intros H; injection H as <-; exact Inv|].
+    destruct (cmp_gt order la lb) as [sw|]; [|discriminate]. intros H. injection H as <-.
+    intros k l Hin. apply in_map_iff in Hin. destruct Hin as ([x lx] & E & Hin). cbn [fst snd] in E.
+    destruct (Inv _ _ Hin) as [Kx Klx]. destruct (term_eqb lx (if sw then la else lb)); injection E as <- <-; auto.
+    destruct sw; auto.
+  - apply lfind_In in Ea. destruct (Inv _ _ Ea) as [_ Kla]. intros H. injection H as <-.
+    intros k l Hin. apply lset_In in Hin. destruct Hin as [Hin|Hin]; [auto|]. injection Hin as -> ->. auto.
+  - apply lfind_In in Eb. destruct (Inv _ _ Eb) as [_ Klb]. intros H. injection H as <-.
+    intros k l Hin. apply lset_In in Hin. destruct Hin as [Hin|Hin]; [auto|]. injection Hin as -> ->. auto.
+  - destruct (cmp_gt order a b) as [sw|]; [|discriminate]. intros H. injection H as <-.
+    intros k l Hin. apply lset_In in Hin. destruct Hin as [Hin|Hin].
+    + apply lset_In in Hin. destruct Hin as [Hin|Hin]; [auto|]. injection Hin as -> ->. destruct sw; auto.
+    + injection Hin as -> ->. destruct sw; auto.
+Qed.
+Lemma scan_pinv P order : forall cs rel m rel' m',
+  (forall c l r, In c cs -> is_def c = Some (l, r) -> P l /\ P r) ->
+  pinv P m -> scan order cs rel m = Some (rel', m') -> pinv P m'.
+Proof.
+  induction cs as [|c cs IH]; intros rel m rel' m' Hc Inv E; cbn in E; [injection E as <- <-; exact Inv|].
+  assert (Hc' : forall c0 l r, In c0 cs -> is_def c0 = Some (l, r) -> P l /\ P r) by (intros c0 l r Hin; apply Hc; now right).
+  destruct (is_def c) as [[l r]|] eqn:Ed; [|eapply IH; [exact Hc' | exact Inv | exact E]].
+  destruct (ds_add order m l r) as [m1|] eqn:Ea; [|discriminate].
+  destruct (Hc c l r (or_introl eq_refl) Ed) as [Pl Pr].
+  eapply IH; [exact Hc' | | exact E]. apply (ds_add_pinv P order m l r m1); auto.
+Qed.
+Lemma build_sigma_in m : forall rel acc s, (forall k v, In (k, v) acc -> In (k, v) m) ->
+  build_sigma rel m acc = SMap s -> forall k v, In (k, v) s -> In (k, v) m.
+Proof.
+  induction rel as [|x rel IH]; intros acc s Ha E; cbn in E; [injection E as <-; exact Ha|].
+  destruct (lfind m x) as [v|] eqn:Ef; [|eapply IH; eauto].
+  destruct (term_eqb x v); [eapply IH; eauto|]. destruct (is_const x && is_const v); [discriminate|].
+  eapply IH; [|exact E]. intros k w Hin. apply in_app_or in Hin. destruct Hin as [Hin|[Hin|[]]]; auto.
+  injection Hin as <- <-. now apply lfind_In.
+Qed.
+
+(* no symbol of a top-level definition l = r is bound anywhere in the formula *)
+Definition defs_unbound (t : term) : Prop :=
+  forall c l r, In c (conjunctive_partition t) -> is_def c = Some (l, r) -> free_of_binders t l /\ free_of_binders t r.
+
+(* C10, propagate_toplevel, quantified inputs: sound whenever no key or replacement symbol is bound
+   anywhere in the formula (the open finding proptop:substitution-under-binder is the complement) *)
+Theorem proptop_equiv_unbound : forall order t r I,
+  normal t = true -> boolish t = true -> defs_const_ok t = true -> defs_unbound t -> wf_interp I ->
+  propagate_toplevel order t = Some r -> eval I r = eval I t.
+Proof.
+  intros order t r I Hn Hb Hc Hu HI E. unfold propagate_toplevel in E.
+  destruct (scan order (conjunctive_partition t) [] []) as [[rel m]|] eqn:Es; [|discriminate].
+  assert (Inv : uf_inv t m) by (eapply (scan_inv order t); [apply incl_refl | | exact Es]; intros k l []).
+  destruct (build_sigma rel m []) as [|sigma] eqn:Eb; injection E as <-.
+  - (* conflict *)
+    assert (Kinv : kc_inv m) by (eapply (scan_kc order); [exact Hc | | exact Es]; intros k l []).
+    destruct (build_sigma_conflict m rel [] Eb) as (k & v & Hin & Ne & Ck & Cv).
+    destruct (Inv _ _ Hin) as [Hent _]. destruct (Kinv _ _ Hin) as [Kk Kv]. unfold kc in Kk, Kv. rewrite Ck in Kk. rewrite Cv in Kv.
+    rewrite (is_vbool_eq (eval I t)) by (now apply boolish_is_vbool). cbn. f_equal.
+    destruct (vbool (eval I t)) eqn:Et; auto. exfalso.
+    assert (Ht : holds I t) by (apply holds_tv; exact Et).
+    exact (const_distinct I k v Ck Cv Kk Kv Ne (Hent I Ht)).
+  - assert (Pinv : pinv (free_of_binders t) m).
+    { eapply (scan_pinv (free_of_binders t) order); [| |exact Es]; [intros c l r0 Hin Hd; eapply Hu; eauto | intros k l []]. }
+    pose proof (build_sigma_spec t m Inv rel [] sigma (fun k v H => match H with end) Eb) as Hs.
+    pose proof (build_sigma_in m rel [] sigma (fun k v H => match H with end) Eb) as Hm.
+    assert (Hub : unbound sigma t) by (intros k v Hin; apply Pinv; now apply Hm).
+    rewrite eval_and, (is_vbool_eq (eval I t)) by (now apply boolish_is_vbool). f_equal. cbn [forallb]. rewrite andb_true_r.
+    change (vbool (eval I t)) with (tv I t).
+    assert (Er : tv I (reassert sigma) = forallb (fun kv => veqb (eval I (fst kv)) (eval I (snd kv))) sigma).
+    { unfold reassert. rewrite tv_mk_and, forallb_map. reflexivity. }
+    rewrite Er. destruct (forallb (fun kv => veqb (eval I (fst kv)) (eval I (snd kv))) sigma) eqn:Ef.
+    + rewrite andb_true_r. unfold tv. f_equal. apply tsubst_eval_unbound; auto.
+      * intros k v Hin. rewrite forallb_forall in Ef. apply (veqb_true (eval I k) (eval I v)). apply (Ef (k, v) Hin).
+      * intros k v Hin. apply sym_or_const_not_not. apply (Hs k v Hin).
+    + rewrite andb_false_r. destruct (tv I t) eqn:Et; auto. exfalso.
+      assert (Ht : holds I t) by (now apply holds_tv).
+      assert (F : forallb (fun kv => veqb (eval I (fst kv)) (eval I (snd kv))) sigma = true).
+      { apply forallb_forall. intros [k v] Hin. cbn [fst snd]. apply veqb_true. now apply (proj1 (Hs k v Hin) I). }
+      congruence.
+Qed.
+
+(* the condition is satisfiable by a quantified formula, and the finding's witness violates exactly it *)
+Example unbound_example :
+  let x := TSym "x" (TBV 2) in let y := TSym "y" (TBV 2) in let z := ("z", TBV 2) in
+  let t := T OAnd [T OEquals [y; x]; T (OExists [z]) [T ONot [T OEquals [TSym "z" (TBV 2); y]]]] in
+  defs_unbound t /\ defs_const_ok t = true /\ boolish t = true /\ normal t = true /\
+  propagate_toplevel [x; y] t =
+    Some (T OAnd [T OAnd [T OEquals [x; x]; T (OExists [z]) [T ONot [T OEquals [TSym "z" (TBV 2); x]]]]; T OEquals [y; x]]).
+Proof.
+  cbn zeta. split; [|repeat split].
+  intros c l r Hin Hd. cbn in Hin. destruct Hin as [<-|[<-|[]]]; cbn in Hd; try discriminate.
+  injection Hd as <- <-. split; intros y0 Hy; cbn in Hy; destruct Hy as [<-|[]]; cbn; intros [H|[]]; inversion H.
+Qed.
+Example witness_not_unbound : ~ defs_unbound pt_witness.
+Proof.
+  intros H. destruct (H (T OEquals [pt_y; pt_x]) pt_y pt_x) as [_ H2]; [cbn; auto | reflexivity|].
+  apply (H2 ("x", bv2)); cbn; auto.
+Qed.
